@@ -169,7 +169,7 @@ func driveC04(p *Pool, r *evid.Run) {
 			if quick {
 				step = 2
 			}
-			for _, kind := range []string{"cancelS", "cancelR", "cancelB", "break", "killR", "killS"} {
+			for _, kind := range []string{"cancelS", "cancelR", "cancelB", "break", "breakC", "killR", "killS"} {
 				for k := 0; k < info["steps"]; k += step {
 					add(Fault{Kind: kind, K: k})
 				}
@@ -223,7 +223,7 @@ func driveC04(p *Pool, r *evid.Run) {
 			if rr[0].Info == nil {
 				continue
 			}
-			for _, kind := range []string{"cancelS", "cancelB", "cancelR", "break", "killR", "killS"} {
+			for _, kind := range []string{"cancelS", "cancelB", "cancelR", "break", "breakC", "killR", "killS"} {
 				for k := 0; k < rr[0].Info["steps"]; k++ {
 					sc := root
 					sc.Fault = Fault{Kind: kind, K: k}
@@ -282,6 +282,34 @@ func driveC04(p *Pool, r *evid.Run) {
 		r.Add("fault_scenarios", int64(len(slow)))
 		exploreAll(p, r, "C04", slow, 0, 0)
 	}
+
+	// a large stale destination the differ has not consumed when it stops: tiny source, 400 entries in the destination
+	var stale []Scn
+	for _, pol := range []string{"run", "recv", "send"} {
+		root := Scn{Kind: "xfer", Src: "tiny", Dst: "fan400", Cap: 2, Policy: pol}
+		rs := exploreAll(p, r, "C04", []Scn{root}, 0, 0)
+		if rs[0] == nil || rs[0].Info == nil {
+			continue
+		}
+		steps := rs[0].Info["steps"]
+		for _, kind := range []string{"break", "cancelR", "cancelS", "killS", "R.recv", "S.send"} {
+			n := steps
+			if kind == "R.recv" || kind == "S.send" {
+				n = rs[0].Info[kind]
+			}
+			stride := n/12 + 1
+			if !quick {
+				stride = n/40 + 1
+			}
+			for k := 0; k < n; k += stride {
+				sc := root
+				sc.Fault = Fault{Kind: kind, K: k}
+				stale = append(stale, sc)
+			}
+		}
+	}
+	r.Add("fault_scenarios", int64(len(stale)))
+	exploreAll(p, r, "C04", stale, 0, 0)
 
 	// large fan-out: more than 132 requests outstanding while the link is stalled
 	var fan []Scn
